@@ -2,7 +2,7 @@ From V Require Import Base.Bytes Base.Obs Model.Escape Model.Tok Model.Hole.
 Inductive case :=
 | CEscape (s : bytes)          (* html.EscapeString / escapeAttrValue / a serialised text node *)
 | CTok (s : bytes)             (* the tokenizer fragment on an arbitrary string *)
-| CMini (r : env) (t : list tnode).   (* the miniature evaluator of Model/Hole.v on concrete data *)
+| CMini (W : list (list tnode)) (r : env) (t : list tnode).   (* the miniature evaluator of Model/Hole.v on concrete data; W: the component files *)
 (* canonical print of a DOM: adjacent text merged, whitespace removed from text, empty text dropped *)
 Definition strip_ws (s : bytes) : bytes := filter (fun c => negb (is_hws c)) s.
 Inductive item := ITxt (s : bytes) | IEl (tag : bytes) (a : list (bytes * bytes)) (k : list item).
@@ -43,8 +43,8 @@ Fixpoint merge_text (l : list token) : list token :=
 Definition run (c : case) : obs :=
   match c with
   | CEscape s => OL [OA (escape s); OA (escape s); OA (escape s)]
-  | CMini r t =>
-      match evals_with (eval 40) r t with
+  | CMini W r t =>
+      match evals_with (eval W 40) CNone r t with
       | Ok d => OA (flat_map (show_item 40) (merge_items (map (to_item 40) d)))
       | _ => OL [OS "error"]
       end
